@@ -30,6 +30,9 @@ type evaluator struct {
 	// mutation code (see mutSlice). Only used to attribute discrepancies to the recorded
 	// finding C13-K1.
 	mut int
+	// sliceHook, when set, may replace the selection of a slice on a given array (used to
+	// emulate recorded findings on particular representations, never for the property itself)
+	sliceHook func(arr []any, s []int) ([]int, bool)
 }
 
 func (ev *evaluator) feat(f string) { ev.res.Feat[f] = true }
@@ -47,6 +50,15 @@ func Eval(p Path, data any) *Result {
 func EvalMutationReading(p Path, data any, reading int) *Result {
 	res := &Result{Ordered: true, Feat: map[string]bool{}}
 	ev := &evaluator{root: data, res: res, mut: reading}
+	res.Locs = ev.path(p, data, nil, true)
+	return res
+}
+
+// EvalSliceHook evaluates the path with hook deciding what a slice selects on the arrays it
+// claims; slices inside filters are not affected.
+func EvalSliceHook(p Path, data any, hook func(arr []any, s []int) ([]int, bool)) *Result {
+	res := &Result{Ordered: true, Feat: map[string]bool{}}
+	ev := &evaluator{root: data, res: res, sliceHook: hook}
 	res.Locs = ev.path(p, data, nil, true)
 	return res
 }
@@ -218,7 +230,14 @@ func (ev *evaluator) path(p Path, cur any, curPath []any, top bool) []Loc {
 		case "slice":
 			for _, l := range locs {
 				if a, ok := l.Val.([]any); ok {
-					for _, i := range ev.sliceIndexes(f.S, len(a), pos) {
+					idx, hooked := []int(nil), false
+					if ev.sliceHook != nil {
+						idx, hooked = ev.sliceHook(a, f.S)
+					}
+					if !hooked {
+						idx = ev.sliceIndexes(f.S, len(a), pos)
+					}
+					for _, i := range idx {
 						next = append(next, Loc{extend(l.Path, i), a[i]})
 					}
 				}
